@@ -81,6 +81,10 @@ type SeataV1PackageHeader struct {
 }
 
 func (p *RpcPackageHandler) Read(ss getty.Session, data []byte) (interface{}, int, error) {
+	if len(data) < Seatav1HeaderLength {
+		// the fixed header is not complete yet, wait for more data
+		return nil, 0, nil
+	}
 	in := bytes.NewByteBuffer(data)
 
 	header := SeataV1PackageHeader{}
@@ -99,6 +103,9 @@ func (p *RpcPackageHandler) Read(ss getty.Session, data []byte) (interface{}, in
 	header.CodecType = bytes.ReadByte(in)
 	header.CompressType = bytes.ReadByte(in)
 	header.RequestID = bytes.ReadUInt32(in)
+	if header.HeadLength < Seatav1HeaderLength || header.TotalLength < uint32(header.HeadLength) {
+		return nil, 0, ErrInvalidPackage
+	}
 	headMapLength := header.HeadLength - Seatav1HeaderLength
 	header.Meta = decodeHeapMap(in, headMapLength)
 	header.BodyLength = header.TotalLength - uint32(header.HeadLength)
